@@ -487,6 +487,8 @@ func runStack(id string, toks []string) (res string) {
 			} else {
 				emit(fmt.Sprintf("PSPLIT=%d/%s", r.status, other))
 			}
+		case "CHURN":
+			emit(w.connectionChurn(p[1]))
 		case "DUPW":
 			emit(w.sameWriteFromTwo(p[1], p[2], p[3], p[4]))
 		case "RSC":
@@ -1677,4 +1679,44 @@ func (w *world) sameWriteFromTwo(can, cbn, subn, rs string) string {
 		}
 	}
 	return fmt.Sprintf("DUPW=ok/%d", rounds)
+}
+
+
+// connectionChurn: CHURN:<milliseconds>
+// Peers that never pair keep four connections busy (POST /identify, truncated pair-verify messages) while four others connect
+// and disconnect in a loop.  The accessory's bookkeeping of connections is used from all of these goroutines at once.
+// Emits CHURN=ok (whether the accessory still serves is asked by the operations that follow; if the process dies there is
+// no output at all).
+func (w *world) connectionChurn(ms string) string {
+	d, _ := strconv.Atoi(ms)
+	stop := time.Now().Add(time.Duration(d) * time.Millisecond)
+	var wg sync.WaitGroup
+	for i := 0; i < 4; i++ {
+		wg.Add(2)
+		go func(i int) {
+			defer wg.Done()
+			cc, err := dial(w.port)
+			if err != nil {
+				return
+			}
+			defer cc.c.Close()
+			for time.Now().Before(stop) && !cc.dead {
+				if i%2 == 0 {
+					cc.request("POST", "/identify", "application/hap+json", []byte{})
+				} else {
+					cc.request("POST", "/pair-verify", tlvCT, []byte{6, 1, 1, 3})
+				}
+			}
+		}(i)
+		go func() {
+			defer wg.Done()
+			for time.Now().Before(stop) {
+				if c, err := net.DialTimeout("tcp", fmt.Sprintf("127.0.0.1:%d", w.port), time.Second); err == nil {
+					c.Close()
+				}
+			}
+		}()
+	}
+	wg.Wait()
+	return "CHURN=ok"
 }
